@@ -192,6 +192,12 @@ func cmdCheck(argv []string) int {
 			checkDeadline = start.Add(time.Duration(n) * time.Second)
 		}
 	}
+	// last resort: whatever keeps the process alive long after the deadline (a native replay that cannot be
+	// killed, a wedged solver pipe), the check ends as inconclusive instead of hanging
+	time.AfterFunc(time.Until(checkDeadline)+8*time.Minute, func() {
+		fmt.Printf("INCONCLUSIVE property=%s watchdog: the check did not finish within its deadline plus 8 minutes\n", id)
+		os.Exit(3)
+	})
 	known := loadKnown()
 	workDir := filepath.Join(verifRoot(), "work", id)
 	if v := os.Getenv("VERIF_REPO"); v != "" {
